@@ -103,6 +103,7 @@ def stats_case(rng, max_h=5, max_w=6):
 
 def xtab2d_case(rng, max_h=4, max_w=5):
     c = X4.make_case_2d(rng, max_h, max_w)
+    X4.bias_selection(rng, c)
     if not Z.wanted_zones(c):
         c["zone_ids"] = None
     if not Z.present_zones(c):
@@ -120,8 +121,28 @@ def xtab3d_case(rng):
     return c
 
 
+def layout_cuts(c):
+    """the rows / columns at which the zones raster changes (the edges of rasterised polygons): chunk borders put there
+    give blocks that lie inside one zone, or hold one zone and background"""
+    z = np.array([Z.untok(t) for t in c["zones"]], dtype=np.float64).reshape(c["h"], c["w"])
+    same = lambda a, b: bool(np.all((a == b) | (np.isnan(a) & np.isnan(b))))  # noqa: E731
+    rows = [i for i in range(1, c["h"]) if not same(z[i], z[i - 1])]
+    cols = [j for j in range(1, c["w"]) if not same(z[:, j], z[:, j - 1])]
+    return rows, cols
+
+
+def cuts_to_chunks(n, cuts):
+    cuts = [0] + sorted(cuts) + [n]
+    return tuple(cuts[i + 1] - cuts[i] for i in range(len(cuts) - 1))
+
+
 def rand_chunks(rng, c, three=False):
     zch = (Z.gen_chunks(rng, c["h"]), Z.gen_chunks(rng, c["w"]))
+    if rng.random() < 0.3:            # chunk borders on the zone layout's own edges (all of them, or some)
+        rows, cols = layout_cuts(c)
+        if rng.random() < 0.5:
+            rows, cols = [x for x in rows if rng.random() < 0.6], [x for x in cols if rng.random() < 0.6]
+        zch = (cuts_to_chunks(c["h"], rows), cuts_to_chunks(c["w"], cols))
     if rng.random() < 0.25:
         vch = zch
     else:
@@ -202,7 +223,7 @@ def compare_models(r, pending):
             elif st != "ok":
                 bad = f"real code raised {st}: {out}, model returned a table"
             else:
-                bad = Z.model_vs_real_table(Z.parse_stats_reply(rep, c["stats"]), out, c["stats"], c["vdtype"], c)
+                bad = Z.model_vs_real_table(Z.parse_stats_reply(rep, c["stats"]), out, c["stats"], c["vdtype"], c, dask_formula=True)
         else:
             bad = X4.compare(c, st, out, rep)
         if bad:
